@@ -58,11 +58,27 @@ def run_c13(ctx, C):
     codec_common(ctx, C, [GEN_INSERT], [], traces=())
 
 
+GEN_BUILDERS = dict(module="Gen_Builders", name="builders", constants=dict(MaxTop=lambda ctx: 2), trace=False,
+                    invariants=("Sound", "Emit"))
+MC_BUILDERS = dict(module="Gen_Builders", name="builders_design", constants=dict(Seed=1, Thorough=False, MaxTop=2), invariants=("Sound",),
+                   properties=("EarlierUntouched", "AtMostOne"),
+                   what="builder state machine: every call appends at most one payload and never touches an earlier one")
+
+
+def run_c19(ctx, C):
+    codec_common(ctx, C, [GEN_BUILDERS], [], mcs=[MC_BUILDERS], traces=())
+
+
 def run_c04(ctx, C):
     codec_common(ctx, C, [GEN_CURSOR], [DRV_BYTES])
 
 
 PLANS = {
+    "C19": dict(level="model_checking", run=run_c19, assumptions=ASSUME_CODEC + ["3GPP layouts transcribed from TS 24.502 9.3 as quoted in the property"],
+                rule="TLC explores the builder state machine (Builders.tla): every builder with pooled arguments (boundary sizes incl. the 16-bit payload "
+                     "limit and oversize NAS PDUs / QFI lists, all flag combinations), sub-builders (proposal/transform/selector/attribute), every "
+                     "first call followed by one representative of every builder; after each call the container projection equals the spec state, "
+                     "the encoding equals the reference encoder or is an error where an argument exceeds a wire limit; NewMessage header/flags/accessors"),
     "C05": dict(level="model_checking", run=run_c05, assumptions=ASSUME_CODEC,
                 rule="direction 1: library octets for every pool message compared with the TLA+ encoder and parsed by the strict TLA+ parser (zero reserved "
                      "bits, exact lengths, chain ends in 0, fields recovered); direction 2: TLC prints datagrams of the reference encoder with sender "
